@@ -68,7 +68,18 @@ def add_faults(case, rng, max_faults=3):
         tick = fault_tick(rng)
         case["plan"].append(fault_for(kind, spec["name"], tick, token=("f", tick)))
         if rng.random() < 0.2:         # double: the same victim again, right away or a bit later
-            case["plan"].append(fault_for(kind, spec["name"], tick + rng.choice([0, 1, 2, 5]),
+            second = kind
+            if rng.random() < 0.5:
+                # ... by a signal of another kind: a cancellation racing an until-interrupt or a
+                # forceful close for the same activity
+                if kind != "cancel":
+                    second = "cancel"
+                else:
+                    other = rng.choice(["interrupt", "close"])
+                    if spec.get("cage") in (None, CAGE_OF[other]):
+                        spec["cage"] = CAGE_OF[other]
+                        second = other
+            case["plan"].append(fault_for(second, spec["name"], tick + rng.choice([0, 1, 2, 5]),
                                           token=("g", tick)))
     if rng.random() < 0.15:
         case["plan"].append({"tick": fault_tick(rng, 60), "kind": "gc"})
